@@ -31,9 +31,13 @@ vars == <<S, ctl>>
 Cfg == S.cfg
 N == Names(Cfg)
 
-ApplyAll(s, es) ==      \* apply a sequence of events
+\* apply a sequence of events; the property predicates look at the last event only, so the sequence stops at
+\* the first event after which some predicate is false (the invariant AllInvs then sees exactly that event)
+ApplyAll(s, es) ==
   LET RECURSIVE F(_, _)
-      F(st, k) == IF k > Len(es) THEN st ELSE F(Apply(st, es[k]), k + 1)
+      F(st, k) == IF k > Len(es) THEN st
+                  ELSE LET nx == Apply(st, es[k]) IN
+                       IF Violated(nx) # {} THEN nx ELSE F(nx, k + 1)
   IN F(s, 1)
 
 Ev(name, p, i) == [ev |-> name, p |-> p, i |-> i]
@@ -58,7 +62,9 @@ InitCtl(cfg) ==
     rlatch |-> <<>>, llatch |-> <<>>, code |-> <<>>, left |-> <<>>, owner |-> <<>>,
     wg |-> 0, mutex |-> <<>>, shutReq |-> FALSE, projExit |-> 0,
     calls |-> <<>>, apiLeft |-> MaxApi, apiNext |-> 1,
-    shut |-> [active |-> FALSE], now |-> 0, runDone |-> FALSE, fails |-> [p \in names |-> 0] ]
+    shut |-> [active |-> FALSE], now |-> 0, runDone |-> FALSE, fails |-> [p \in names |-> 0],
+    dchan |-> <<>>,   \* daemons: notifications pending in procStateChan (capacity 1, non-blocking send)
+    lfails |-> <<>> ] \* consecutive liveness failures counted by the prober of the instance
 
 Init == \E cfg \in Configs : S = InitS(cfg) /\ ctl = InitCtl(cfg)
 
@@ -82,6 +88,7 @@ NewCtl(c, i, p) ==
             !.rlatch = (i :> "unset") @@ @, !.llatch = (i :> "unset") @@ @,
             !.code = (i :> 0) @@ @, !.left = (i :> MaxLaunch) @@ @, !.owner = (i :> <<>>) @@ @,
             !.fails[p] = 0,      \* a new Process object has new probers
+            !.dchan = (i :> 0) @@ @, !.lfails = (i :> 0) @@ @,
             !.wg = @ + 1]
 
 RunInit ==      \* Run(): compute the run order
@@ -187,9 +194,10 @@ Launch(i) ==    \* setStateAndRun: run-context check, state and Commander.Start(
   /\ IF ctl.cancelled[i]
      THEN ctl' = [ctl EXCEPT !.ipc[i] = "ending"] /\ UNCHANGED S
      ELSE \/ /\ ctl.left[i] > 0
-             /\ S' = ApplyAll(S, << StateEv(P(i), i, "Running", S.exitCode[P(i)]),
+             /\ S' = ApplyAll(S, << StateEv(P(i), i, IF PC(i).daemon THEN "Launching" ELSE "Running", S.exitCode[P(i)]),
                                     [ev |-> "Launch", p |-> P(i), i |-> i, t |-> ctl.now] >>)
-             /\ ctl' = [ctl EXCEPT !.ipc[i] = "running", !.left[i] = @ - 1]
+             \* forgetDaemonStopped: a notification left over from an earlier launch is dropped
+             /\ ctl' = [ctl EXCEPT !.ipc[i] = "running", !.left[i] = @ - 1, !.dchan[i] = 0]
           \/ /\ StartFailures
              /\ LET s1 == ApplyAll(S, << StateEv(P(i), i, "Running", S.exitCode[P(i)]),
                                         [ev |-> "StartFail", p |-> P(i), i |-> i, attempt |-> S.inst[i].launches + 1] >>)
@@ -235,10 +243,36 @@ ProbeFail(i) ==   \* the failure_threshold-th consecutive failure is fatal: inte
         \* go-health keeps counting across natural restarts; stopping the probes (fatal -> internalStop) resets it
         /\ ctl' = [ctl EXCEPT !.fails[P(i)] = IF fatal THEN 0 ELSE n]
 
-Reap(i) ==      \* Wait() returned; setExitCode
+Reap(i) ==      \* Wait() returned; setExitCode; a daemon whose launcher returned 0 is now Launched
   /\ ctl.ipc[i] = "running" /\ ~Alive(i) /\ S.inst[i].exits = S.inst[i].launches
-  /\ S' = Apply(S, [ev |-> "Reaped", p |-> P(i), i |-> i, code |-> S.inst[i].lastCode])
-  /\ ctl' = [ctl EXCEPT !.ipc[i] = "run.decide", !.code[i] = S.inst[i].lastCode]
+  /\ LET s1 == Apply(S, [ev |-> "Reaped", p |-> P(i), i |-> i, code |-> S.inst[i].lastCode])
+         launched == PC(i).daemon /\ S.inst[i].lastCode = 0
+     IN /\ S' = IF launched /\ s1.status[P(i)] = "Launching"      \* setStateIf(Launching, Launched)
+                THEN Apply(s1, StateEv(P(i), i, "Launched", 0)) ELSE s1
+        /\ ctl' = [ctl EXCEPT !.ipc[i] = IF launched THEN "daemon.wait" ELSE "run.decide", !.code[i] = S.inst[i].lastCode]
+
+\* waitForDaemonCompletion: blocks until a notification (fatal liveness result, stop) is pending
+DaemonWake(i) ==
+  /\ ctl.ipc[i] = "daemon.wait" /\ ctl.dchan[i] = 1
+  /\ ctl' = [ctl EXCEPT !.ipc[i] = "run.decide", !.dchan[i] = 0]
+  /\ UNCHANGED S
+
+LiveOk(i) ==      \* a successful liveness probe resets the prober's failure count
+  /\ PC(i).daemon /\ PC(i).hasLiveProbe /\ ~ctl.done[i]
+  /\ S.inst[i].launches >= 1 /\ S.status[P(i)] # "Terminating" /\ ctl.lfails[i] > 0
+  /\ S' = Apply(S, [ev |-> "Probe", p |-> P(i), i |-> i, kind |-> "live", ok |-> TRUE, fatal |-> FALSE])
+  /\ ctl' = [ctl EXCEPT !.lfails[i] = 0]
+
+\* environment: the liveness probe of a daemon fails (the prober runs from the launch until the probes are
+\* stopped); the failure_threshold-th consecutive failure is fatal: notifyDaemonStopped (never blocks)
+LiveFail(i) ==
+  /\ PC(i).daemon /\ PC(i).hasLiveProbe /\ ~ctl.done[i]
+  /\ S.inst[i].launches >= 1 /\ S.status[P(i)] # "Terminating"     \* the probers run from the first launch until a stop / the end
+  /\ ctl.lfails[i] < PC(i).threshold
+  /\ LET n == ctl.lfails[i] + 1
+         fatal == n = PC(i).threshold
+     IN /\ S' = Apply(S, [ev |-> "Probe", p |-> P(i), i |-> i, kind |-> "live", ok |-> FALSE, fatal |-> fatal])
+        /\ ctl' = [ctl EXCEPT !.lfails[i] = n, !.dchan[i] = IF fatal THEN 1 ELSE @]
 
 Decide(i) ==    \* isRestartable(): consumes the stop flag, then the policy table
   /\ ctl.ipc[i] = "run.decide"
@@ -336,6 +370,12 @@ StopAct(s, c, t) ==
        ELSE << s, c >>
   ELSE IF c.done[t]
   THEN << s, c >>     \* setStateIfRunning: an ended instance does not take its successor's Running for its own
+  ELSE IF PCfg(s.cfg, p).daemon
+  THEN \* a daemon is stopped through its shutdown command (assumed to succeed): no signal to the launcher;
+       \* doConfiguredStop notifies the goroutine waiting in waitForDaemonCompletion
+       << Apply(s, [ev |-> "State", p |-> p, i |-> t, status |-> "Terminating", exit |-> s.exitCode[p],
+                    health |-> "-", restarts |-> s.restarts[p]]),
+          [c EXCEPT !.dchan[t] = 1, !.fails[p] = 0] >>
   ELSE << ApplyAll(s, << [ev |-> "State", p |-> p, i |-> t, status |-> "Terminating", exit |-> s.exitCode[p],
                           health |-> "-", restarts |-> s.restarts[p]],
                          [ev |-> "Signal", p |-> p, i |-> t, sig |-> 15, sinceStopUs |-> -1] >>),
@@ -499,6 +539,7 @@ Next ==
   \/ \E i \in Insts :
        \/ DepLookup(i) \/ DepLookupDone(i) \/ DepRelease(i) \/ DepAbort(i) \/ Skip(i) \/ PreCheck(i) \/ Launch(i)
        \/ CmdExit(i) \/ ReadyLine(i) \/ ProbeOk(i) \/ ProbeFail(i) \/ Reap(i) \/ Decide(i)
+       \/ DaemonWake(i) \/ LiveFail(i) \/ LiveOk(i)
        \/ BackoffElapsed(i) \/ BackoffAborted(i) \/ End(i)
        \/ EpilogueAdd(i) \/ EpilogueProject(i) \/ TriggerLock(i) \/ TriggerDone(i)
        \/ EpilogueWg(i) \/ EpilogueUnreg(i)
